@@ -19,7 +19,9 @@ VERIF = os.path.abspath(os.path.join(os.path.dirname(__file__), "..", ".."))
 REPO = os.environ.get("VERIF_REPO", "/repo")
 CACHE = os.path.join(VERIF, ".cache")
 LEAN = os.path.join(VERIF, "lean")
-EVID = os.path.join(VERIF, "evidence")
+# evidence of a run against a private copy (mutation testing) must not overwrite the committed evidence of /repo
+EVID = (os.path.join(VERIF, "evidence") if os.path.realpath(REPO) == "/repo"
+        else os.path.join(CACHE, "evidence-private"))
 REPLAY = os.path.join(VERIF, "replays")
 HARNESS = os.path.join(VERIF, "harness")
 GUARD = "OVNI_VERIF"
